@@ -11,8 +11,8 @@ from .common import q, qmat
 
 LEVEL = "proof"
 TRUSTED = [
-    "model: lean/RpyModel/Readout.lean (accumulate / normal equations / bias split / forward; mirror of nodes/readouts/ridge.py, readouts/base.py, node.py partial_fit+fit)",
-    "theorems: lean/RpyProofs/Props/C04.lean over any linearly ordered field (gap identity, optimality, uniqueness, accumulators = sums over retained steps, warm-up irrelevance, certificate soundness, prediction)",
+    "model: lean/RpyModel/Readout.lean (accumulate / normal equations / bias split / forward; the offline life of the node: partial_fit, assignment of ridge, fit(), fit(X, Y) as ridgeStep; mirror of nodes/readouts/ridge.py, readouts/base.py, node.py partial_fit+fit)",
+    "theorems: lean/RpyProofs/Props/C04.lean over any linearly ordered field (gap identity, optimality, uniqueness, accumulators = sums over retained steps, warm-up irrelevance, certificate soundness, prediction; life cycle: after any interleaving of partial fits and assignments of ridge, fit() installs the unique optimum for the data handed over and the value ridge has at the solve, a completed earlier session leaves no trace)",
     "scipy.linalg.solve is not trusted: its answer is compared with the certified exact solution and its exact residual is computed",
     "tolerance 1e-9 relative (well-conditioned stream), normal-equation residual <= 1e-9 * scale (ill-conditioned stream)",
 ]
@@ -141,6 +141,27 @@ def model_case(c, obs):
     return m
 
 
+def model_ops_case(c):
+    """the same hand-over as run_impl, as a sequence of life-cycle operations for RpyModel.ridgeStep"""
+    mode = c.get("mode", "fit")
+    if mode == "fit":
+        return None
+    base = model_case(c, None)
+    seqs, w = base["seqs"], c["warmup"]
+    m = {"kind": "ridge_ops", "regime": "E", "d": c["d"], "o": c["o"], "bias": c["bias"]}
+    if mode == "partial":
+        m["ridge0"] = q(c["ridge"])
+        m["ops"] = [{"op": "partial", "warmup": w, "seqs": [sq]} for sq in seqs] + [{"op": "fit"}]
+    elif mode == "partial_ridge":
+        m["ridge0"] = q(c["ridge0"])
+        m["ops"] = [{"op": "partial", "warmup": w, "seqs": [sq]} for sq in seqs] + [{"op": "ridge", "lam": q(c["ridge"])}, {"op": "fit"}]
+    else:
+        m["ridge0"] = q(c["prior"]["ridge"])
+        m["ops"] = [{"op": "fit_data", "warmup": 0, "seqs": [{"X": qmat(c["prior"]["X"]), "Y": qmat(c["prior"]["Y"])}]},
+                    {"op": "ridge", "lam": q(c["ridge"])}, {"op": "fit_data", "warmup": w, "seqs": seqs}]
+    return m
+
+
 def float_cost(c, raw):
     """J(W) in floats (for the perturbation oracle)."""
     tot = 0.0
@@ -158,8 +179,19 @@ def check_cases(ctx, cases):
     obs = [common.exc_class(run_impl, c) for c in cases]
     mcases = [model_case(c, o[1] if o[0] == "ok" else None) for c, o in zip(cases, obs)]
     outs = ctx.model.batch(mcases)
-    for c, o, mo in zip(cases, obs, outs):
+    ocases = [model_ops_case(c) for c in cases]
+    oouts = iter(ctx.model.batch([m for m in ocases if m is not None]))
+    for c, o, mo, oc in zip(cases, obs, outs, ocases):
         ob = f"ridge_fit/{c['stream']}"
+        if oc is not None:
+            # the life-cycle model (ridgeStep: theorems C04_lifecycle*, C04_lambda_at_solve_only, C04_refit_forgets) must
+            # install exactly the certified optimum the implementation is compared with below
+            lo = next(oouts)
+            if lo[0] != "ok":
+                raise common.FrameworkError("model rejected a C04 life-cycle case: " + lo[1])
+            if mo[0] == "ok" and (lo[1]["W"] != mo[1].get("W") or lo[1]["has_buffers"] or Fraction(lo[1]["ridge"]) != Fraction(c["ridge"])):
+                raise common.FrameworkError("model: the life-cycle run (ridgeStep) does not install the certified optimum of its own data and final lambda")
+            ctx.stat("life-cycle model runs compared")
         nontriv = sum(c["lens"]) - c["warmup"] * len(c["lens"]) >= 2
         ctx.count(c, nontrivial=nontriv, obligation=ob)
         for k in ("stream", "layout", "bias", "dtype", "warmup", "d", "o"):
